@@ -346,6 +346,13 @@ func TestConvergence(t *testing.T) {
 			boundary, selfish, upToDate = true, false, false
 			fr = 2*nVal - 2
 		}
+		if scen == 3 {
+			// directed: a fork deeper than the first window of the block-sync common-block search (9 heights one round apart):
+			// the requester sits on a long fork that never advanced its finality; the search has to move on to lower windows
+			selfish, upToDate, boundary = true, false, false
+			fr = 9*nVal + rapid.IntRange(1, 3*nVal).Draw(t, "deepFork")
+			fp = fr + 2*nVal + 1 + rapid.IntRange(1, 5).Draw(t, "deepAhead")
+		}
 		gapR := 2
 		if selfish || boundary {
 			gapR = 1
@@ -492,7 +499,8 @@ func TestConvergence(t *testing.T) {
 			return map[string]any{"kind": "convergence", "history": hist, "mode": mode, "converged": converged, "err": fmt.Sprint(perr)}
 		}, "convergence", "mode-"+mode, fmt.Sprintf("converged-%v", converged), fmt.Sprintf("better-%v", better),
 			fmt.Sprintf("better-with-lower-tip-%v", better && ptip.Header.Height < rt.Height), fmt.Sprintf("up-to-date-%v", upToDate),
-			fmt.Sprintf("common-block-is-the-finalized-block-%v", uint32(prefix) == Fbefore))
+			fmt.Sprintf("common-block-is-the-finalized-block-%v", uint32(prefix) == Fbefore),
+			fmt.Sprintf("fork-below-first-search-window-%v", blockOK && fr > 9*nVal))
 	})
 }
 
